@@ -19,6 +19,13 @@ var (
 
 var notImplemented = Function{Func: unimplemented}
 
+// notImplementedWithArity is a placeholder for a function that is not implemented yet,
+// accepting the argument counts of its specification so that calls reach the explicit
+// not-implemented error rather than an arity error.
+func notImplementedWithArity(minArity, maxArity int) Function {
+	return Function{Func: unimplemented, MinArity: minArity, MaxArity: maxArity}
+}
+
 // FHIRPathFunc is the common abstraction for all function types
 // supported by FHIRPath.
 type FHIRPathFunc func(ctx *expr.Context, input system.Collection, args ...expr.Expression) (system.Collection, error)
